@@ -77,6 +77,8 @@ type Case struct {
 	// names a mutation; a GET is answered from its URL whatever else it carries)
 	GetBody   string `json:"get_body,omitempty"`
 	GetBodyCT string `json:"get_body_content_type,omitempty"`
+	// TooLarge: the server is first sent a multipart upload request larger than MaxUploadSize
+	TooLarge bool `json:"too_large,omitempty"`
 }
 
 func (c Case) document() string {
@@ -148,7 +150,7 @@ func buildHandler(s *proj.Server, c Case, recovers *atomic.Int64) *handler.Serve
 		case "urlencoded":
 			h.AddTransport(transport.UrlEncodedForm{ResponseHeaders: hdr})
 		case "multipart":
-			h.AddTransport(transport.MultipartForm{ResponseHeaders: hdr})
+			h.AddTransport(transport.MultipartForm{ResponseHeaders: hdr, MaxUploadSize: 256})
 		case "options":
 			h.AddTransport(transport.Options{})
 		}
@@ -171,6 +173,11 @@ func check(c Case) *vfrun.Failure {
 	s := ss[0]
 	var recovers atomic.Int64
 	h := buildHandler(s, c, &recovers)
+	if c.TooLarge {
+		if f := checkTooLarge(c, s, h); f != nil {
+			return f
+		}
+	}
 	for attempt := 0; attempt <= c.Repeat; attempt++ {
 		if f := checkAttempt(c, s, h, &recovers, attempt); f != nil {
 			return f
@@ -179,6 +186,49 @@ func check(c Case) *vfrun.Failure {
 	if c.Repeat > 0 && c.QueryCache {
 		vfrun.Label("repeated-with-query-cache")
 	}
+	return nil
+}
+
+// checkTooLarge: an upload request whose declared length exceeds MaxUploadSize is refused - with
+// a JSON GraphQL body under the transport's content type and configured headers, like every other
+// answer, and with nothing run.
+func checkTooLarge(c Case, s *proj.Server, h *handler.Server) *vfrun.Failure {
+	supported := false
+	for _, n := range c.Order {
+		supported = supported || n == "multipart"
+	}
+	if !supported {
+		return nil
+	}
+	body := "--b\r\nContent-Disposition: form-data; name=\"operations\"\r\n\r\n{\"query\":\"mutation { m3 }\"}\r\n--b\r\nContent-Disposition: form-data; name=\"map\"\r\n\r\n{}\r\n--b\r\nContent-Disposition: form-data; name=\"pad\"\r\n\r\n" + strings.Repeat("x", 400) + "\r\n--b--\r\n"
+	hr := httptest.NewRequest("POST", "/graphql", strings.NewReader(body))
+	hr.Header.Set("Content-Type", "multipart/form-data; boundary=b")
+	e := univ.NewExec(plan.New(3))
+	s.U.SetExec(e)
+	res := hsrv.Serve(h, hr)
+	vfrun.Eval()
+	desc := fmt.Sprintf("multipart upload of %d bytes against MaxUploadSize 256, respCT=%q -> %d %q %s", len(body), c.RespCT, res.Status, res.Header.Get("Content-Type"), res.Body)
+	if n := len(e.Keys("R")); n > 0 {
+		return vfrun.Failf("http.non-2xx-but-executed", "%s: %d resolver calls ran", desc, n)
+	}
+	b, perr := strictjson.Parse(res.Body)
+	if perr != nil || b.Kind != strictjson.Object || b.Get("errors") == nil {
+		return vfrun.Failf("http.body-not-graphql-json", "%s: %v", desc, perr)
+	}
+	// (which status such a refusal carries is not part of the property: gqlgen answers 200)
+	wantCT := "application/json"
+	if c.RespCT != "" {
+		wantCT = c.RespCT
+	}
+	if c.RespCT == "" && c.ExtraHdr {
+		vfrun.Label("content-type-not-asserted(configured-headers-without-content-type)")
+	} else if got := res.Header.Values("Content-Type"); len(got) != 1 || got[0] != wantCT {
+		return vfrun.Failf("http.content-type", "%s: Content-Type %q, want %q", desc, got, wantCT)
+	}
+	if c.ExtraHdr && len(res.Header.Values("X-Harness")) != 2 {
+		return vfrun.Failf("http.response-headers", "%s: configured header missing: %v", desc, res.Header)
+	}
+	vfrun.Label("rejected:upload-too-large")
 	return nil
 }
 
@@ -415,6 +465,7 @@ func gen(t *rapid.T) Case {
 	if rapid.IntRange(0, 9).Draw(t, "droptransport") == 0 {
 		c.Order = c.Order[:len(c.Order)-2]
 	}
+	c.TooLarge = rapid.IntRange(0, 7).Draw(t, "toolarge") == 0
 	if c.Transport == "get" && rapid.IntRange(0, 2).Draw(t, "getbody") == 0 {
 		i := rapid.IntRange(0, len(getBodies)-1).Draw(t, "whichgetbody")
 		c.GetBodyCT, c.GetBody = getBodies[i][0], getBodies[i][1]
